@@ -264,14 +264,28 @@ func getCmdRef(c ccase, input string) *cmdRef {
 		outFile = filepath.Join(filepath.Dir(input), "ref.out")
 		args = append([]string{"-o", outFile}, args...)
 	}
-	o := execTo(c.Cmd, args, c.env(), "capture", 0, 0)
+	// The healthy run is the yardstick, not the subject: a command that dies for a
+	// reason unrelated to its output (a rare crash while the input is parsed has
+	// been seen under load) is run again; only a failure repeated three times in a
+	// row is reported.
+	var o cmdOutcome
+	for attempt := 0; attempt < 3; attempt++ {
+		if outFile != "" {
+			os.Remove(outFile)
+		}
+		o = execTo(c.Cmd, args, c.env(), "capture", 0, 0)
+		if o.TimedOut || o.Err != nil || o.Exit == 0 {
+			break
+		}
+		evid.Class("healthy_run_failed_and_retried", 1)
+	}
 	switch {
 	case o.TimedOut:
 		r.Timeout = true
 	case o.Err != nil:
 		r.Err = fmt.Errorf("harness infrastructure: cannot run %s: %v", c.Cmd, o.Err)
 	case o.Exit != 0:
-		r.Err = fmt.Errorf("%s %v (healthy output) exited with status %d: %s", c.Cmd, args, o.Exit, tail(o.Stderr, 600))
+		r.Err = fmt.Errorf("%s %v (healthy output) exited with status %d three times in a row: %s", c.Cmd, args, o.Exit, tail(messagesBytes(o.Stderr), 1500))
 	default:
 		r.T = o.Stdout
 		if outFile != "" {
@@ -288,6 +302,10 @@ func getCmdRef(c ccase, input string) *cmdRef {
 		cmdRefMu.Unlock()
 	}
 	return r
+}
+
+func messagesBytes(stderr []byte) []byte {
+	return []byte(strings.Join(messages(stderr, ""), "\n"))
 }
 
 // ------------------------------------------------------------------ the oracle
